@@ -63,3 +63,20 @@ Theorem c18_lock_order_acyclic : forall a b, In (a, b) g_lock_order ->
   exists i j, index_of a lock_rank = Some i /\ index_of b lock_rank = Some j /\ (i < j)%nat.
 Proof. exact CallGraph.lock_order_acyclic. Qed.
 Print Assumptions c18_lock_order_acyclic.
+
+(* ---------------------------------------------------------------------------------------------- *)
+(* REGENERATED FROM THE SOURCE ON EVERY RUN (tools/gen -> Generated.g_code; Decisions.v): the decisions the model
+   takes at these points are the evaluations of the conditions the Go source has there, for all values of their
+   variables. *)
+From GK Require Import GExpr Generated Decisions.
+From Coq Require Import String.
+
+(* iterators: Next on a closed iterator answers false without touching the channels; Close is idempotent (Iter.v) *)
+Theorem c18_iterator_closed_guards_is_source :
+  match body "iterator.Next" with SIf [] (GVar "it.closed") [SReturn [GVar "false"]] [] :: _ => True | _ => False end /\
+  match body "iterator.Close" with
+  | [SIf [] (GVar "it.closed") [SReturn []] []; SExpr (GCall "close" [GVar "it.next"]); SAssign [GVar "it.closed"] "=" [GVar "true"]] => True
+  | _ => False
+  end.
+Proof. exact Decisions.iterator_closed_guards. Qed.
+Print Assumptions c18_iterator_closed_guards_is_source.
